@@ -256,6 +256,7 @@ class C10(Prop):
     paper_steps = [
         "frame clause `modifies nothing reachable from the arguments` for every function of elements.py and helpers.py: every mutating operation (item / attribute assignment, list mutators, random.shuffle) must act on a name that cannot alias an argument (ground, syntactic, complete over the two files)",
         "the lazy list cache is append-only and private: every use of self.generated in LazyList.py is a read, the append in __next__, the extension in reversed(), the initial binding, __setitem__ (reachable only from assign_iterable, on a copy) or output()'s registration as a stack; it is never returned or stored elsewhere (obligation C10/lazylist-cache-append-only)",
+        "what the structure templates publish (context value n, input scope of a lambda / function) is a copy of the working stack, never the stack itself (obligations C10/published-values-are-copies[*] on the code emitted by the real transpile)",
         "copy-on-duplicate: the templates of : D Ḃ ¾ push deep_copy(...) / list(deep_copy(...)) (ground on the live table); deep_copy itself and the laziness of its tee are exercised by the bounded program-level run only",
     ]
 
@@ -286,6 +287,39 @@ class C10(Prop):
             g.append(Ground("C10/lazylist-cache-append-only", not extra, f"uses of self.generated beyond reads and the listed writes: {extra}", witness=dict(uses=extra) if extra else None, native=False))
         for k, want in ((":", "stack.append(deep_copy(top))"), ("D", "stack.append(deep_copy(top))"), ("Ḃ", "stack.append(deep_copy(top))"), ("¾", "list(deep_copy(ctx.global_array))")):
             g.append(Ground(f"C10/copy-on-duplicate[{k}]", want in el.elements[k][0], f"template: {el.elements[k][0][:120]}", witness=dict(element=k), native=False))
+        # structure templates: what a function / lambda / loop publishes as its context value or input scope must be a
+        # copy, never the live working stack (a later push or pop would change a value somebody already holds)
+        from vyxal.transpile import transpile
+
+        LIVE = {"stack", "arg_stack", "parameters"}
+
+        def aliases(e):
+            if isinstance(e, ast.Name):
+                return e.id in LIVE
+            if isinstance(e, ast.Call):
+                f = ast.unparse(e.func)
+                if f in ("deep_copy", "list", "tuple", "sorted", "vyxalify"):
+                    return False if f == "deep_copy" else any(aliases(a) and not isinstance(a, ast.Name) for a in e.args)  # list(stack) copies the container
+                return False
+            if isinstance(e, ast.Subscript):
+                return False if isinstance(e.slice, ast.Slice) else aliases(e.value)  # stack[0] is an item of the live stack
+            if isinstance(e, ast.IfExp):
+                return aliases(e.body) or aliases(e.orelse)
+            if isinstance(e, (ast.List, ast.Tuple)):
+                return any(aliases(x) for x in e.elts)
+            return False
+
+        for prog in ("λ1;", "λ2|1;", "ƛ1;", "'1;", "µ1;", "@f|1;", "@f:a|1;", "@f:2|1;", "@f:a:b|1;", "@f:*|1;", "(1)", "(i|1)", "{1|1}", "⟨1|2⟩", "λ1X;", "@f:2|1X;"):
+            try:
+                tree = ast.parse(transpile(prog))
+            except Exception as e:  # noqa
+                g.append(Ground(f"C10/published-values-are-copies[{prog}]", False, f"cannot transpile / parse: {e}"))
+                continue
+            bad = []
+            for x in ast.walk(tree):
+                if isinstance(x, ast.Call) and ast.unparse(x.func) in ("ctx.context_values.append", "ctx.inputs.append") and x.args and aliases(x.args[0]):
+                    bad.append(ast.unparse(x)[:100])
+            g.append(Ground(f"C10/published-values-are-copies[{prog}]", not bad, f"the live stack (or an item of it) is published uncopied: {bad}", witness=dict(program=prog, calls=bad) if bad else None, native=False))
         # modifier templates must not write attributes of the function value they were given
         for k, tpl in el.modifiers.items():
             stores = [ast.unparse(t) for st in ast.walk(ast.parse(tpl)) if isinstance(st, ast.Assign) for t in st.targets if isinstance(t, ast.Attribute) and isinstance(t.value, ast.Name) and t.value.id.startswith("function_")]
